@@ -107,7 +107,14 @@ class Shard:
     """kind: short slug of what was refuted; mechanism: known-finding key
     computed by a predicate over the witness (None = unclassified)."""
     self.count("violations_raw")
-    if len(self.violations) < 40:
+    # bounded storage, but a classified (listed) finding never uses up the room of an unclassified one: at most 6 witnesses per
+    # listed mechanism, at most 40 unclassified witnesses
+    if mechanism is not None:
+      self.count("listed:" + str(mechanism))
+      room = sum(1 for v in self.violations if v["mechanism"] == mechanism) < 6
+    else:
+      room = sum(1 for v in self.violations if v["mechanism"] is None) < 40
+    if room:
       self.violations.append({"kind": kind, "mechanism": mechanism, "case": jsonable(case),
                               "witness": jsonable(witness)})
 
@@ -270,7 +277,7 @@ def run_check(prop, tier="quick", seed=0, replay=None):
   rc = 0
   for m, e in known_open.items():
     if reproduced[m]:
-      lines.append(f"KNOWN-FINDING: property={prop} {e['id']} {e['what']} (reproduced {reproduced[m]}x this run)")
+      lines.append(f"KNOWN-FINDING: property={prop} {e['id']} {e['what']} (reproduced {max(reproduced[m], counters.get('listed:' + str(m), 0))}x this run)")
     elif not replay:
       lines.append(f"NOTE: listed finding {e['id']} ({m}) was not reproduced by this run's probe stream")
   seen = set()
